@@ -8,6 +8,7 @@ CHECK = dict(
                'Converters: every string of length <= 3 (thorough 4) over a 20-symbol numeric/ISO-8601 alphabet into 17 Convert::To targets in char, char16_t and char32_t. Pumping: 11 families with depth/size 2^k, k <= 16 (thorough 20). '
                'Stream refill boundary: 21 MsgPack item forms (every multi-byte scalar, 8/16/32-bit length fields, timestamps, ext; four of them declare 2113 bytes/elements that are not there) placed at 20 offsets around the end of the 256-byte reader cache inside a 3-element array, cut at every byte or with one byte set to ff/00, into 8 tuple targets (typed and mismatching), memory and stream, both policies. '
                'UTF payloads: every byte string of length <= 3 (thorough 4) over a 16-symbol UTF-8 class alphabet (tails, over-long/2/3/4-octet leads, ED, F4/F5, the retired 5/6-octet leads, FE/FF) as the string value of MsgPack/JSON/CSV/XML documents into char16_t/char32_t/wchar_t/char targets and a map key, memory and stream, both UTF error policies, and straight into Convert::To / TryTo / Transcode from exact-size heap buffers (UTF-16 unit strings likewise). '
+               'Shape mismatch: arrays / objects of 1..3 elements of every shape (object, empty object, array, empty array, null, number, string, bool) into 8 container-of-class / container-of-container / map targets, MsgPack/JSON/XML, memory and stream, both policies. '
                'Every call must return or throw something derived from std::exception, the process must survive (terminate, signals, ASan/UBSan, stack overflow are outcomes), and memory must stay within 64 KiB + 64 x input size '
                'with no single request above 64 MiB.',
     level_note='Coverage-guided / random mutation of long arbitrary inputs belongs to another technique family and is not done. Payload bytes inside strings/binaries are not interpreted by the readers (UTF payloads: C12). '
